@@ -106,6 +106,24 @@ Proof.
 Qed.
 
 (* DebugSymbols::link on well-formed line maps: no overflow, the maps are concatenated *)
+Lemma debug_link_shape la sa lb sb bsa bsb :
+  lines_ok 0 (count_lines sa) bsa la = true -> lines_ok 0 (count_lines sb) bsb lb = true ->
+  count_lines sa + count_lines sb <= usize_max ->
+  debug_link (mkDebug la sa) (mkDebug lb sb) = Some (mkDebug (la ++ shift_lines (count_lines sa) lb) (sa ++ [10] ++ sb)).
+Proof.
+  intros Ha Hb Hfit.
+  unfold debug_link. cbn [ds_src ds_lines].
+  replace (existsb (fun p => usize_max <? fst p + count_lines sa) lb) with false.
+  - f_equal. f_equal.
+    assert (E : fold_left (fun acc p => bt_put (fst p + count_lines sa) (snd p) acc) lb la =
+                fold_left (fun acc p => bt_put (fst p) (snd p) acc) (shift_lines (count_lines sa) lb) la).
+    { unfold shift_lines. generalize la. clear. induction lb as [|p r IH]; intro l0; [reflexivity|]. cbn [map fold_left fst snd]. apply IH. }
+    rewrite E. eapply (fold_put_append _ _ (0 + count_lines sa) (count_lines sb + count_lines sa) bsb).
+    + apply lines_ok_shift. exact Hb.
+    + intros k ws Hin. destruct (lines_ok_bounds _ _ _ _ _ _ Ha Hin) as (? & ? & ?). lia.
+  - symmetry. apply not_true_is_false. intro E. apply existsb_exists in E. destruct E as ((k, ws) & Hin & E).
+    cbn in E. apply Z.ltb_lt in E. destruct (lines_ok_bounds _ _ _ _ _ _ Hb Hin) as (? & ? & ?). lia.
+Qed.
 Lemma debug_link_ok la sa lb sb bsa bsb bs :
   lines_ok 0 (count_lines sa) bsa la = true -> lines_ok 0 (count_lines sb) bsb lb = true ->
   (forall x, covered bsa x = true -> covered bs x = true) -> (forall x, covered bsb x = true -> covered bs x = true) ->
@@ -113,25 +131,14 @@ Lemma debug_link_ok la sa lb sb bsa bsb bs :
   debug_link (mkDebug la sa) (mkDebug lb sb) = Some (mkDebug (la ++ shift_lines (count_lines sa) lb) (sa ++ [10] ++ sb)) /\
   lines_ok 0 (count_lines (sa ++ [10] ++ sb)) bs (la ++ shift_lines (count_lines sa) lb) = true.
 Proof.
-  intros Ha Hb Ca Cb Hfit. split.
-  - unfold debug_link. cbn [ds_src ds_lines].
-    replace (existsb (fun p => usize_max <? fst p + count_lines sa) lb) with false.
-    + f_equal. f_equal.
-      assert (E : fold_left (fun acc p => bt_put (fst p + count_lines sa) (snd p) acc) lb la =
-                  fold_left (fun acc p => bt_put (fst p) (snd p) acc) (shift_lines (count_lines sa) lb) la).
-      { unfold shift_lines. generalize la. clear. induction lb as [|p r IH]; intro l0; [reflexivity|]. cbn [map fold_left fst snd]. apply IH. }
-      rewrite E. eapply (fold_put_append _ _ (0 + count_lines sa) (count_lines sb + count_lines sa) bsb).
-      * apply lines_ok_shift. exact Hb.
-      * intros k ws Hin. destruct (lines_ok_bounds _ _ _ _ _ _ Ha Hin) as (? & ? & ?). lia.
-    + symmetry. apply not_true_is_false. intro E. apply existsb_exists in E. destruct E as ((k, ws) & Hin & E).
-      cbn in E. apply Z.ltb_lt in E. destruct (lines_ok_bounds _ _ _ _ _ _ Hb Hin) as (? & ? & ?). lia.
-  - rewrite count_lines_join. eapply (lines_ok_app _ _ _ _ _ (count_lines sa)).
-    + eapply lines_ok_mono; [|exact Ca|exact Ha]. lia.
-    + replace (count_lines sa) with (0 + count_lines sa) at 1 by lia.
-      replace (count_lines sa + count_lines sb) with (count_lines sb + count_lines sa) by lia.
-      apply lines_ok_shift. eapply lines_ok_mono; [|exact Cb|exact Hb]. lia.
-    + pose proof (count_lines_pos sa). lia.
-    + pose proof (count_lines_pos sb). lia.
+  intros Ha Hb Ca Cb Hfit. split; [eapply debug_link_shape; eauto|].
+  rewrite count_lines_join. eapply (lines_ok_app _ _ _ _ _ (count_lines sa)).
+  - eapply lines_ok_mono; [|exact Ca|exact Ha]. lia.
+  - replace (count_lines sa) with (0 + count_lines sa) at 1 by lia.
+    replace (count_lines sa + count_lines sb) with (count_lines sb + count_lines sa) by lia.
+    apply lines_ok_shift. eapply lines_ok_mono; [|exact Cb|exact Hb]. lia.
+  - pose proof (count_lines_pos sa). lia.
+  - pose proof (count_lines_pos sb). lia.
 Qed.
 
 (* ====================================================================================== *)
